@@ -8,8 +8,10 @@ import math
 import numpy as np
 
 from props import c13_ext as X
+from props import c13_g6 as G
 
 LEVEL = "proof"
+EXTRA_PROPS = ["QuantemModel.Props.C13Ext"]   # growth round 6 theorems, audited on their own
 MANIFEST_ENTRY = {
     "category": "proof",
     "text": "Lean 4 theorems over an executable model of imaging_utils' registration code (the FFT formula "
@@ -33,12 +35,26 @@ MANIFEST_ENTRY = {
             "align_translation), intensity scales 1e-12..1e6, container x dtype x memory-layout classes of the arguments, degenerate "
             "shapes (axis of length 1 or 2), and call histories on the module: persistent arrays / tensors / FFTs re-used across valid "
             "calls, rejected calls (wrong argument kinds, unusable dtypes, shape mismatch, options of the wrong type, raising part-way) "
-            "and caller-side in-place updates, every valid call compared with a freshly loaded copy of the module.",
+            "and caller-side in-place updates, every valid call compared with a freshly loaded copy of the module. "
+            "Growth round 6 (Props/C13Ext.lean, audited on its own): 'exactly' as an equality (a translation whose negative lies in the centred "
+            "window comes back as that very number; -1 px / +1 px on either axis — coarse peak on the last / second index — give exactly "
+            "(+1 / -1) through both entry points at every factor, non-square shapes included), the end-to-end composition FFT tables -> entry "
+            "point -> translating the second image by the returned shift reproduces the first (both entry points, every factor, max_shift), "
+            "and a model of the third estimator of the anchored files, tomography.utils.torch_phase_cross_correlation (first maximum of |cc|, "
+            "per-axis centring `> dim // 2`): integer-shift exactness in (-dim/2, dim/2] for non-negative images, its sign convention, and "
+            "where it differs from the other two (the tie dim/2 stays positive); tied to the code by an exact stream (driver op `phase`). "
+            "A FIXED block (independent of VERIF_SEED, harness/props/c13_g6.py) enumerates: +-1 px on each axis separately, shifts at and "
+            "beyond half the size, H<W and H>W, factors 1,2,3,10,16,100,128 for both estimators, max_shift exactly on / one ulp outside the lag "
+            "radius with the lag along one axis only, callers re-using their FFT arrays with return_shifted_image, calls alternating between "
+            "pairs of different shapes, and the users with sign-asymmetric stacks (align_vbf_stack_multiscale in reference and pairwise mode: "
+            "returned shifts and aligned stack; _compute_pairwise_shifts with pairs in both orders; cross_correlation_align_stack; "
+            "DriftCorrection.align_translation on H<W / H>W canvases).",
     "note": "Trusted: Lean kernel + propext/Classical.choice/Quot.sound; np.fft/torch.fft are assumed to compute the defining "
             "sums (exercised by every stream); IEEE rounding; torch float32 kernel precision in dftUpsample_torch. Moved from "
             "measured to proved in growth round 5: integer-shift exactness on the upsampled branches (NumPy up >= 2, torch up >= 3) and "
             "with max_shift, the dispatch on the factor (one statement for all factors), zero shift for identical images through the "
-            "entry points. Still measured only: the 'within 1/upsample_factor' clause for band-limited sub-pixel shifts (paths that do "
+            "entry points. Growth round 6: the returned VALUE for +-1 px (equality, not only a congruence), the end-to-end sign convention "
+            "through the entry points, and torch_phase_cross_correlation (previously not reached by any stream) are proved. Still measured only: the 'within 1/upsample_factor' clause for band-limited sub-pixel shifts (paths that do "
             "not upsample are held to one pixel), swap negation of the upsampled branches (NumPy exact to 1e-7, torch to 1/up), "
             "statelessness of the module (no theorem: the code has no state; measured by the history stream against a fresh module). "
             "Recorded findings: on an image with a single row/column the upsampled branches return a non-zero shift (-0.5 / 0.25) "
@@ -49,16 +65,20 @@ RULE = ("a case is one estimator call on one image pair; distinct non-trivial = 
         "upsample factor, shift class [zero/within half/beyond half/at half/sub-pixel], max_shift used, fft_input/fft_output flags) "
         "with a non-constant image; the drift stream adds (canvas parity, stack size, upsample factor), the history stream the sequence of (return_shifted_image, fft_output, swapped) calls made on one shared pair of arrays; "
         "mhist: the sequence of op kinds of one module history (valid torch/NumPy call with its option flags, rejected call with its kind, caller-side in-place update); "
+        "g6 fixed block: altshape (family, factor, max_shift used, the shapes), phase (shape, shift class, dtype), users (shape, factor, mask shape); "
         "forms: (variant, argument form, up class, fft_input, return_shifted_image); degen: (rows<3, cols<3, up class, shift class); stages: (shape, factor, max_shift used, true lag inside the disc)")
 TRUSTED = ["np.fft.fft2/ifft2 and torch.fft.fft2/ifft2 compute the defining DFT sums (exercised by every stream)",
            "torch.argmax/np.argmax return the first maximum; torch.round rounds half to even",
            "the correlation theorem (FFT product = spatial circular cross-correlation) is proved (Props/C13.correlation_theorem); the exact stream additionally measures it on the real FFTs",
-           "importlib loading imaging_utils.py under a fresh module name gives a copy without the state of the copy under test (the history oracle)"]
+           "importlib loading imaging_utils.py under a fresh module name gives a copy without the state of the copy under test (the history oracle)",
+           "torch_phase_cross_correlation: the model takes |real(cc)| where the code takes |cc| of the complex ifft2 (imaginary part = rounding noise for real images); integer images make the comparison exact"]
 ASSUMPTIONS = ["image pairs whose correlation maximum is not unique (exact integer test) or whose float margins are below 1e-6 are rejected by the generator (counted in the distribution)",
                "sub-pixel accuracy (<= 1/upsample_factor) is evaluated on band-limited images without Nyquist content only; paths that do not upsample (NumPy up<=1, torch up<=2: parabolic estimate, torch rounds it to half a pixel) are held to one pixel",
                "the torch upsampling kernels are built in float32 by the library; that path is compared with tolerance 5e-4",
                "model comparisons are skipped (and counted) where an argmax is decided by rounding: exact ties of the masked table, a patch wider than a 3-pixel axis that holds its maximum twice, the patch along an axis of length 1",
                "an axis of length 1: the applied translation is the identity, 0 is required back; the upsampled branches return -0.5 / 0.25 there (known findings np-/torch-axis-of-length-1-upsampled)",
+               "phase_corr_integer_shift (Props/C13Ext) is stated for non-negative images (intensities): there abs(cc) = cc; an image with negative values could have a larger |cc| at an anti-correlated lag (not modelled, the g6-phase stream uses non-negative integer images)",
+               "align_vbf_stack_multiscale in pairwise mode solves a float32 linear system: its shifts are held to 5e-3 px, the aligned stack to 1e-2 relative; the stacks are chosen with all pairwise differences below half the cell so that the wrapped pairwise shifts are consistent",
                "rejected calls in histories are whatever the unchanged code rejects (TypeError/ValueError/RuntimeError/NotImplementedError/ModuleNotFoundError from NumPy/torch); the exception type is recorded, not compared"]
 EXPLANATION = ("Theorems in Props/C13.lean are about Model/Registration.lean; every run drives the real estimators and the model "
                "with the same image pairs and compares peaks, refinements, patches and final shifts.")
@@ -958,6 +978,8 @@ def run_case(ctx, drv, case):
         X.case_degen(ctx, drv, case)
     elif s == "stages":
         X.case_stages(ctx, drv, case)
+    elif s.startswith("g6-"):
+        G.run_case(ctx, drv, case)
     else:
         raise ValueError(s)
 
@@ -1019,6 +1041,10 @@ def run(ctx):
             run_case(ctx, drv, case)
         for i in range(ctx.n(50, 500)):
             run_case(ctx, drv, X.gen_stages(rng.fork(i)))
+        # growth round 6 (c13_g6.py): FIXED block, independent of VERIF_SEED — unit shifts / last index / H<>W both ways / large factors,
+        # max_shift at its boundary, re-used FFT arrays, alternating shapes, torch_phase_cross_correlation, users with sign-asymmetric stacks
+        for case in G.fixed_cases():
+            run_case(ctx, drv, case)
     finally:
         drv.close()
 
@@ -1028,7 +1054,7 @@ def replay(ctx, rep):
     case = rep.get("case") or (rep.get("correspondence_disagreements") or [{}])[0].get("case")
     if not case:
         return False
-    case = {k: v for k, v in case.items() if k not in ("failing_call", "failing_op", "dtype", "pedestal_flag")}
+    case = {k: v for k, v in case.items() if k not in ("failing_call", "failing_op", "dtype", "pedestal_flag", "pair", "member", "tomo_t")}
     if case.get("stream") == "signature":
         check_signatures(ctx)
         return True
